@@ -16,7 +16,7 @@ LEVEL = "exploration"
 NUMS = [0.0, 2.5, -2.5, 1e-10, -3.04e4]
 WINDOWS = [(10, 300), (-9999, 9999), (0, 0), (5, 41000)]
 WINDOWS_REAL = [(10.25, 300.75), (2.73, 154.5), (0.5, 0)]  # formats whose window fields are free text
-IDXS = [1, 99999]
+IDXS = [1, 99999, 123456]
 
 # reference code tables (transcribed from the format documentation, not from naunet)
 KIDA_TYPES = {1: 101, 2: 102, 3: 100, 4: 110, 5: 111, 6: 103}
